@@ -23,14 +23,25 @@ def run(rep, prog, tier):
     _lambda_rules(rep, prog)
     # ---- simulation from rest
     g = prog.func('SignalProcessing.state_space_model', 'continuous_state_space_solver')
-    lsim = [n for n in ast.walk(g.node) if isinstance(n, ast.Call) and ast.unparse(n.func).endswith('lsim')]
-    if not lsim:
+    from ..terms import Evaluator as _E, tkey as _tk
+    evs = _E(prog)
+    ps = [a.arg for a in g.node.args.args]
+    t = evs.call_fn(g.node, g.mod, [A(p) for p in ps], {}, {'__parent__': None}, 1)
+    def find_ext(k, name):
+        if isinstance(k, tuple):
+            if len(k) >= 4 and k[0] == 'call' and isinstance(k[1], tuple) and k[1][:1] == ('ext',) and k[1][1].split('.')[-1] == name: return k
+            for x in k:
+                r = find_ext(x, name)
+                if r is not None: return r
+        return None
+    ls = find_ext(_tk(t), 'lsim')
+    if ls is None:
         rep.ob('R11.rest', 'lsim', None, 'no lsim call found in continuous_state_space_solver', g.site)
     else:
-        c = lsim[0]
-        x0 = next((k.value for k in c.keywords if k.arg == 'X0'), c.args[3] if len(c.args) > 3 else None)
-        ok = x0 is None or (isinstance(x0, ast.Name) and x0.id == 'x0')
-        rep.ob('R11.rest', 'lsim', ok, 'lsim(sys, u, t) without initial state' if x0 is None else f'initial state passed: {ast.unparse(x0)}', g.site)
+        kw = dict(ls[3]); pos = list(ls[2])
+        x0 = kw.get('X0', pos[3] if len(pos) > 3 else None)
+        ok = x0 is None or (len(ps) > 3 and x0 == _tk(A(ps[3]))) or x0 == _tk(None)
+        rep.ob('R11.rest', 'lsim', bool(ok), 'lsim(sys, u, t) without initial state' if x0 is None else ('initial state = the x0 handed in' if ok else f'initial state passed: {x0!r:.80}'), g.site)
     from .c12 import solver_call_args
     m2, sc, site2 = solver_call_args(prog)
     if sc is None:
